@@ -136,7 +136,7 @@ def run(ctx, P):
 
 
 META = dict(
-    bounds=dict(quick="n=4 candles (6 under T2), SMA(2) and TR on HA candles, standalone and inside a Hexital; schedules: from empty one-by-one, 1 or 2 preloaded + singles, all at construction, one chunk, every two-chunk split; plus Heikin-Ashi under a 2-minute lifespan (6 candles, six schedules incl. all at construction and one long chunk)",
+    bounds=dict(quick="n=4 candles (6 under T2), SMA(2) and TR on HA candles, standalone and inside a Hexital; schedules: from empty one-by-one, 1 or 2 preloaded + singles, all at construction, one chunk, every two-chunk split; plus Heikin-Ashi under a 2-minute lifespan (6 candles, six schedules incl. all at construction and one long chunk); plus a Heikin-Ashi Hexital whose member collapses to T2, stream starting one minute after / exactly on a bucket edge",
                 thorough="n=5 (7 under T2)"),
     stubs=["exact real arithmetic, uninterpreted rounding", "max/min -> If-terms"],
     assumptions=["1-minute concrete grid; collapsed raw candles taken from the reference resampler (C03)"],
